@@ -37,6 +37,7 @@ import pysmt.operators as op
 import pysmt.rewritings as rw
 from pysmt.environment import Environment, push_env, pop_env
 from ..core import termio
+from ..core import profiles as P5
 from ..core.refsem import (compile_term, free_symbols, Unconstrained, IllTyped, Unsupported)
 from ..core.termgen import Profile, interps, sort_values
 from ..core.termio import INT, BOOL, mk_type
@@ -1301,6 +1302,9 @@ def parts(ctx):
             mid_ops=_names("not", "and", "iff") if q else _names("not", "and", "or", "iff"), top_ops=_names(*_BIN))
         cnf("cnf-%s-d2-ite" % al, al, 2, 4, consts=(), mid_ops=_names("not", "and", "iff"),
             top_ops=_names("bite"), max_new=1)
+    # ---- beyond the small sizes: connectives with five arguments, some of them compound
+    A(dict(name="cnf-nary5-d1", kind="cnf", profile=lambda e: P5.nary5mix_profile(e, compound=True, natoms=5 if q else None),
+           depth=1, shards=16))
     # ---- Ackermannization
     ack("ack-chain-d1", "chain", 2, 2, mid_ops=_names("f", "g", "inc"), top_ops=_names("eq", "p"))
     ack("ack-chain-d2", "chain", 3, 16, mid_ops=_names("f", "g", "inc"), top_ops=_names("eq", "p"))
